@@ -255,14 +255,26 @@ func (w *World) loopHead(fr *Frame, st *State, h *ssa.BasicBlock, k int) {
 				for _, lt := range w.loopTargets[key] {
 					t, ok := w.loopInvariantTerm(fr, st, lt.v, inLoop, assigned)
 					if !ok {
-						precise = false
-						break
+						// a target that changes inside the loop: writes to it are
+						// checked (obligation) to hit objects allocated since
+						// function entry only
+						freshOnly = true
+						continue
 					}
 					if lt.viaSlice {
 						t = sarr(t)
 					}
 					targets = append(targets, t)
 				}
+			}
+			if fr.top {
+				if fr.loopPolicy == nil {
+					fr.loopPolicy = map[*ssa.BasicBlock]map[string]*loopKeyPolicy{}
+				}
+				if fr.loopPolicy[h] == nil {
+					fr.loopPolicy[h] = map[string]*loopKeyPolicy{}
+				}
+				fr.loopPolicy[h][key] = &loopKeyPolicy{precise: precise, freshOnly: freshOnly, targets: targets}
 			}
 			if os.Getenv("GOAVC_DEBUG") != "" {
 				fmt.Fprintf(os.Stderr, "loop %d of %s: havoc %s precise=%v whole=%v freshOnly=%v targets=%d\n", k, fr.fn.Name(), key, precise, w.loopWhole[key], freshOnly, len(w.loopTargets[key]))
@@ -658,6 +670,48 @@ func (w *World) addStoreTargets(addr ssa.Value, addKey func(string), addAt func(
 		w.addStoreKeys(addr, addKey)
 	default:
 		w.addStoreKeys(addr, addKey)
+	}
+}
+
+// loopKeyPolicy records how a loop head framed a heap key, so that writes in
+// the body can be checked against it.
+type loopKeyPolicy struct {
+	precise   bool
+	freshOnly bool
+	targets   []Term
+}
+
+// loopWriteCheck: a write to (key, ref) inside loops of the function under
+// contract must respect the frame each enclosing loop head assumed.
+func (w *World) loopWriteCheck(fr *Frame, st *State, key string, ref Term) {
+	if !fr.top || fr.loops == nil || w.curBlock == nil || fr.loopPolicy == nil {
+		return
+	}
+	for h, blocks := range fr.loops.body {
+		in := false
+		for _, b := range blocks {
+			if b == w.curBlock {
+				in = true
+			}
+		}
+		if !in {
+			continue
+		}
+		pol := fr.loopPolicy[h][key]
+		if pol == nil || !pol.precise || !pol.freshOnly {
+			continue // whole key havocked, or every target was resolved syntactically
+		}
+		var alts []Term
+		alts = append(alts, lt(w.hget(fr.entry, allocKey), ref))
+		for _, t := range pol.targets {
+			alts = append(alts, eq(ref, t))
+		}
+		w.callOrd["loopwrite"]++
+		props := []string{}
+		if fr.contract != nil {
+			props = fr.contract.Props
+		}
+		w.oblige("loop.write", fmt.Sprintf("loopwrite.%d.%s.fresh-object", w.callOrd["loopwrite"], key), st.cond, or(alts...), false, props)
 	}
 }
 
